@@ -70,7 +70,12 @@ func (s *copyService) Handle(ctx context.Context, conn net.Conn) error {
 
 		defer conn2.Close()
 
-		go io.Copy(conn2, conn)
+		go func() {
+			// when the client is gone, release the backend connection as well - and with it the
+			// copy below, which otherwise waits for the backend to close first, maybe forever
+			io.Copy(conn2, conn)
+			conn2.Close()
+		}()
 		_, err = io.Copy(conn, conn2)
 
 		return err
@@ -90,7 +95,12 @@ func (s *copyService) Handle(ctx context.Context, conn net.Conn) error {
 
 		defer conn2.Close()
 
-		go io.Copy(conn2, conn)
+		go func() {
+			// when the client is gone, release the backend connection as well - and with it the
+			// copy below, which otherwise waits for the backend to close first, maybe forever
+			io.Copy(conn2, conn)
+			conn2.Close()
+		}()
 		_, err = io.Copy(conn, conn2)
 		return err
 	default:
